@@ -246,7 +246,9 @@ class MeshView:
         n2 = 2.0 ** self.level
         f = P * n2[:, None] - 0.5
         self.cidx = np.round(f).astype(int)
-        self.pos_err = np.abs(f - self.cidx).max() if len(f) else 0.0
+        # in units of the cell size; a position is a float64 product (a few ulps relative), i.e. 2**level times that in cell units
+        excess = np.abs(f - self.cidx) - 64 * np.finfo(float).eps * n2[:, None]
+        self.pos_err = max(0.0, float(excess.max())) if len(f) else 0.0
         self.keys = [(int(l),) + tuple(int(v) for v in c) for l, c in zip(self.level, self.cidx)]
 
 
